@@ -44,14 +44,14 @@ var KindNames = []string{"random", "text", "xml", "utf8", "dna", "exe-x86", "exe
 
 // Recipe describes a byte string; Expand builds it.
 type Recipe struct {
-	Kind int    `json:"kind"`
-	Len  int    `json:"len"`
-	Seed uint64 `json:"seed"`
-	P1   int    `json:"p1,omitempty"`
-	P2   int    `json:"p2,omitempty"`
-	Kind2 int   `json:"kind2,omitempty"` // KMixed: second kind
-	Edge  int   `json:"edge,omitempty"`  // edge decoration applied after expansion (see applyEdge)
-	Raw  []byte `json:"raw,omitempty"`   // explicit bytes override everything
+	Kind  int    `json:"kind"`
+	Len   int    `json:"len"`
+	Seed  uint64 `json:"seed"`
+	P1    int    `json:"p1,omitempty"`
+	P2    int    `json:"p2,omitempty"`
+	Kind2 int    `json:"kind2,omitempty"` // KMixed: second kind
+	Edge  int    `json:"edge,omitempty"`  // edge decoration applied after expansion (see applyEdge)
+	Raw   []byte `json:"raw,omitempty"`   // explicit bytes override everything
 }
 
 func (r Recipe) String() string {
@@ -115,7 +115,7 @@ func (rc Recipe) Expand() []byte {
 }
 
 // NEdges is the number of edge decorations.
-const NEdges = 15
+const NEdges = 18
 
 // applyEdge rewrites a few bytes at the block edges: blocks of a stream are cut at
 // arbitrary positions, so a block may start or end in the middle of a CR LF pair,
@@ -166,6 +166,12 @@ func applyEdge(b []byte, edge int) {
 		for i := n / 8; i < n-n/16 && i < n/8+73480+int(v)*64; i++ {
 			b[i] = v
 		}
+	case 15: // 3-byte lead at n-5 whose second byte (first byte past a scan window that stops 4 bytes early) is ASCII
+		b[n-5], b[n-4], b[n-3] = 0xE4, 'A', 0x80
+	case 16: // 4-byte lead at n-5, ASCII second byte, continuation bytes behind it
+		b[n-5], b[n-4], b[n-3], b[n-2] = 0xF0, 'x', 0x80, 0x80
+	case 17: // 4-byte sequence straddling n-4 with a bad third byte; lone continuation bytes at the very end
+		b[n-6], b[n-5], b[n-4], b[n-3], b[n-1] = 0xF0, 0x9F, '\n', 0x98, 0xBF
 	case 14: // a run of 65538..65793 bytes (just above 0xFFFF plus the run threshold) when the block allows it
 		v := b[n/16]
 		for i := n / 16; i < n-1 && i < n/16+65538+int(v); i++ {
